@@ -343,6 +343,12 @@ def F72():
     d = pd.DataFrame({"x": np.array([1, 2, 3, 4], dtype="float16")})
     return exc(lambda: model_matrix("x", d, output="sparse", context={})) is not None
 
+def F73():
+    tr = pd.DataFrame({"a": list("xyzxyz")})
+    m = model_matrix("C(a, levels=lv)", tr, context={"lv": ["z", "x", "y"]})
+    r = m.model_spec.get_model_matrix(tr.head(3), context={"lv": ["z", "x"]})
+    return not np.allclose(np.asarray(r, float), np.asarray(m, float)[:3])
+
 ids = sys.argv[1:] or [f"F{i}" for i in range(1, 26)]
 for i in ids:
     try:
